@@ -565,3 +565,22 @@ trait LinearPartitionPointExt<T>: AsRef<[T]> {
 }
 
 impl<T> LinearPartitionPointExt<T> for [T] {}
+
+// Accessors for verification harnesses (compiled only with --cfg sux_verif)
+#[cfg(sux_verif)]
+impl<const NUM_U32S: usize, const COUNTER_WIDTH: usize, C, I: AsRef<[u32]>, O: AsRef<[usize]>>
+    SelectSmall<NUM_U32S, COUNTER_WIDTH, C, I, O>
+{
+    /// Returns (inventory, inventory_begin, log2_ones_per_inventory).
+    pub fn verif_parts(&self) -> (&[u32], &[usize], usize) {
+        (
+            self.inventory.as_ref(),
+            self.inventory_begin.as_ref(),
+            self.log2_ones_per_inventory,
+        )
+    }
+    /// Returns the underlying counting structure.
+    pub fn verif_inner(&self) -> &C {
+        &self.small_counters
+    }
+}
